@@ -55,12 +55,18 @@ def projects(draw: Any, cycles: bool = False, star_consumers: bool = False) -> D
                             'as': ('Pub' + d['name']) if form == 'renamed' else d['name'], 'alltype': draw(st.sampled_from(['list', 'tuple']))})
             # the re-exporting import may sit in a block that is always entered (an optional dependency, a version check)
             exports[-1]['guard'] = draw(st.sampled_from([None, None, None, 'try', 'if', 'if-version']))
+            # the re-exporting module defines a fallback of the same name first and imports the real thing over it
+            if form != 'star' and draw(st.integers(0, 4)) == 0:
+                exports[-1]['fallback'] = draw(st.sampled_from(['class', 'func']))
             if form == 'renamed' and draw(st.booleans()):
                 # the defining module has an unrelated object that is called like the exported name: it stays where it is
                 exports[-1]['clash_id'] = new_id()
     for e in exports:
         if e.get('clash_id') and any(x['form'] == 'star' and x['from'] == e['from'] for x in exports):
             del e['clash_id']  # a star import of the same module would bind the name too: which binding is exported depends on line order
+    for e in exports:
+        if e.get('fallback') and any(x['form'] == 'star' and x['from'] == e['from'] and x['via'] == e['via'] for x in exports):
+            del e['fallback']  # (a star import of the same module into the same exporter binds - and moves - the name first)
     # a star import exports every name of that module that is listed: keep one via per (from, star)
     consumers = []
     cnames = draw(st.sampled_from([['c1'], ['c1', 'c2'], ['a_first', 'c2'], ['c1', 'zlast']]))
@@ -168,6 +174,10 @@ def to_files(proj: Dict[str, Any]) -> Tuple[Dict[str, str], Dict[str, Any]]:
             stmt = 'from .%s import %s as %s' % (e['from'], e['obj'], e['as'])
         else:
             stmt = 'from .%s import *' % e['from']
+        if e.get('fallback') == 'class':
+            tgt += ['class %s:' % e['as'], '    \"\"\"pure-Python fallback\"\"\"', '    def fallback_member(self):', '        pass']
+        elif e.get('fallback') == 'func':
+            tgt += ['def %s():' % e['as'], '    \"\"\"pure-Python fallback\"\"\"']
         g = e.get('guard')
         if g == 'try':
             tgt += ['try:', '    ' + stmt, 'except ImportError:', '    pass']
